@@ -18,7 +18,10 @@ def main():
         print("SETUP: coq build failed")
         return 1
     try:
-        vlib.model_build()
+        for name in sorted(os.listdir(os.path.join(vlib.ROOT, 'extract'))):
+            if os.path.exists(os.path.join(vlib.ROOT, 'extract', name, 'Extract.v')):
+                vlib.model_build(name)
+                print('SETUP: model %s built' % name)
         for feat in ("base", "fa", "fb", "fc"):
             vlib.harness_build(feat)
             print("SETUP: harness %s built" % feat)
